@@ -688,3 +688,92 @@ def run_a14(chk, A14, repo):
                                       'model is the undefined symbol D2.0 (findings/C01_cmt_modelled_duration_demo.py)')
     if n == 0:
         raise AnalysisError('A14: no R<n> / D<n> symbol construction found in advan.py')
+
+
+def run_a15_a16(chk, repo):
+    """A15: in dosing() the kind of dose of a compartment is decided from the dose records of that compartment (every _dosing
+    call inside a loop over the CMT values gets a subset that was filtered on CMT == <loop value>); A16: for $DES models A(i)
+    of $ERROR is the i-th compartment of $MODEL, not the i-th amount of pharmpy's canonical order"""
+    from sa import reach, guards as G_
+    A15 = chk.rule('A15', 'dosing(): inside a loop over the CMT values, _dosing() gets the records filtered on that CMT value',
+                   floor=2)
+    am = repo.module('pharmpy.model.external.nonmem.advan')
+    f = am.functions.get('dosing')
+    if f is None:
+        raise AnalysisError('advan.dosing not found')
+    cfg = CFG(f.node)
+    n15 = 0
+    for L in [x for x in ast.walk(f.node) if isinstance(x, ast.For) and isinstance(x.target, ast.Name)
+              and "'CMT'" in unparse(x.iter)]:
+        lv = L.target.id
+        for c in [x for x in ast.walk(L) if isinstance(x, ast.Call) and dotted(x.func) == '_dosing' and len(x.args) >= 2]:
+            n15 += 1
+            at = reach.node_containing(cfg, c)
+            data = reach.expand_expr(cfg, at, c.args[1]) if at is not None else c.args[1]
+            # a comparison `<frame>['CMT'] == <loop value>` somewhere in the (expanded) subset expression
+            ok = any(isinstance(t, ast.Compare) and len(t.ops) == 1 and isinstance(t.ops[0], ast.Eq)
+                     and "'CMT'" in unparse(t.left) + unparse(t.comparators[0])
+                     and lv in {x.id for x in ast.walk(t) if isinstance(x, ast.Name)} for t in ast.walk(data))
+            chk.instance(A15, f'dosing: `{unparse(c)[:70]}` in the loop over CMT values sees only that compartment\'s records: {ok}')
+            if not ok:
+                chk.violation(A15, am.rel, f.name, unparse(c)[:100],
+                              'the dose kind (bolus, infusion with data RATE, modelled rate Rn / duration Dn) of a compartment is '
+                              'decided from the records of all compartments', line=c.lineno,
+                              witness='an oral bolus into CMT 1 and an infusion (RATE>0) into CMT 2: the depot is read as '
+                                      'Infusion(AMT, rate=RATE)')
+    if n15 == 0:
+        raise AnalysisError('A15: no _dosing call inside a loop over the CMT values found')
+    A16 = chk.rule('A16', 'parse_statements: for a $DES model A(i) / A_0(i) are bound to the i-th compartment of the $MODEL '
+                          'record', floor=1)
+    pm = repo.module('pharmpy.model.external.nonmem.parsing')
+    g = pm.functions.get('parse_statements')
+    if g is None:
+        raise AnalysisError('parse_statements not found')
+    gcfg = CFG(g.node)
+
+    def is_des(e):
+        return True if isinstance(e, ast.Name) and e.id == 'des' else None
+    sites = []
+    for nd in gcfg.nodes.values():
+        a = nd.ast
+        if nd.kind == 'stmt' and isinstance(a, ast.Assign) and isinstance(a.targets[0], ast.Subscript) \
+                and any(isinstance(j, ast.JoinedStr) and j.values and isinstance(j.values[0], ast.Constant)
+                        and j.values[0].value.startswith('A(') for j in ast.walk(a.targets[0].slice)):
+            loop = next((L for L in ast.walk(g.node) if isinstance(L, ast.For) and any(x is a for x in ast.walk(L))), None)
+            if loop is None:
+                continue
+            # what the loop enumerates, through the locals it is computed from (also inside comprehensions)
+            txt, seen, todo = unparse(loop.iter), set(), [x.id for x in ast.walk(loop.iter) if isinstance(x, ast.Name)]
+            while todo and len(seen) < 12:
+                nm = todo.pop()
+                if nm in seen:
+                    continue
+                seen.add(nm)
+                for _d, v in (reach.values(gcfg, nd.id, nm) or []):
+                    txt += ' ' + unparse(v)
+                    todo += [x.id for x in ast.walk(v) if isinstance(x, ast.Name)]
+            from_model = "'MODEL'" in txt and 'compartments' in txt
+            lab = None
+            for t in [n_ for n_ in gcfg.nodes.values() if n_.kind == 'test' and n_.ast is not None]:
+                l_ = G_.edge_label(t.ast, is_des, G_.resolver(gcfg, t.id))
+                if l_ and gcfg.edge_dominates(t.id, l_, nd.id):
+                    lab = 'des'
+                l2 = 'false' if l_ == 'true' else 'true' if l_ == 'false' else None
+                if l2 and gcfg.edge_dominates(t.id, l2, nd.id):
+                    lab = 'not des'
+            sites.append((nd, from_model, lab))
+    if not sites:
+        raise AnalysisError('A16: binding of A(i) in parse_statements not found')
+    for nd, from_model, lab in sites:
+        ok = from_model if lab == 'des' else (lab == 'not des' or from_model)
+        chk.instance(A16, f'parse_statements: `{nd.text()[:60]}` (path: {lab or "any"}) numbered by the $MODEL record: {from_model}')
+        if not ok:
+            chk.violation(A16, pm.rel, g.name, nd.text()[:90],
+                          'on a path that $DES models take, A(i) is numbered by pharmpy\'s canonical compartment order instead of '
+                          'the order of the $MODEL record', line=nd.line,
+                          witness='$MODEL COMP=(CENTRAL DEFOBS) COMP=(DEPOT DEFDOSE) with $DES: CONC = A(1)/V is read as '
+                                  'A_DEPOT/V')
+    if not any(lab == 'des' and fm for _n, fm, lab in sites):
+        chk.violation(A16, pm.rel, g.name, 'no binding of A(i) from the $MODEL record on the $DES path',
+                      'A(i) of a $DES model must follow the $MODEL record', line=g.node.lineno,
+                      witness='$MODEL COMP=(CENTRAL DEFOBS) COMP=(DEPOT DEFDOSE) with $DES: CONC = A(1)/V is read as A_DEPOT/V')
